@@ -215,10 +215,10 @@ theorem decodeArray_no_stall (t : ArrT) (bs : Bytes) (evs : List Ev) :
     exact decodeChunks_no_stall _ _ _ b (by omega) hc
   | ok q => obtain ⟨a, b⟩ := q; simp
 
-theorem lift_ok {α} (x : Except DecErr α) (a : α) (h : lift x = .ok a) : x = .ok a := by
+theorem lift_ok_inv {α} (x : Except DecErr α) (a : α) (h : lift x = .ok a) : x = .ok a := by
   cases x <;> simp [lift] at h ⊢; exact h
 
-theorem lift_err {α} (x : Except DecErr α) (e : DecErr) (evs : List Ev) (h : lift x = .error (e, evs)) :
+theorem lift_err_inv {α} (x : Except DecErr α) (e : DecErr) (evs : List Ev) (h : lift x = .error (e, evs)) :
     x = .error e := by
   cases x <;> simp [lift] at h ⊢; exact h.1
 
@@ -248,7 +248,7 @@ theorem readId_err (bs : Bytes) (e : DecErr) (h : readId bs = .error e) : e ≠ 
 
 theorem bind_ok {α β} (x : Except DecErr β) (g : β → α) (a : α)
    (h : lift (do let p ← x; pure (g p)) = .ok a) : ∃ p, x = .ok p ∧ g p = a := by
-  have h := lift_ok _ _ h
+  have h := lift_ok_inv _ _ h
   cases x with
   | error e => simp [bind, Except.bind] at h
   | ok p =>
@@ -257,7 +257,7 @@ theorem bind_ok {α β} (x : Except DecErr β) (g : β → α) (a : α)
 
 theorem bind_err {α β} (x : Except DecErr β) (g : β → α) (e : DecErr) (evs : List Ev)
    (h : lift (do let p ← x; pure (g p)) = .error (e, evs)) : x = .error e := by
-  have h := lift_err _ _ _ h
+  have h := lift_err_inv _ _ _ h
   cases x with
   | error e' => simp [bind, Except.bind] at h; rw [h]
   | ok p => simp [bind, Except.bind, pure, Except.pure] at h
